@@ -16,7 +16,7 @@
   Every other place where Python could raise a non-library exception is explicit as well:
   `OPCODE_NAMES[...]` (KeyError), the two `assert`s of VerifyScript (the CLEANSTACK one is known
   finding D6), the unbound `stackCopy`, `struct.pack` in vch2mpi, ValueError in
-  encode_op_pushdata, the index errors of RawSignatureHash for a negative `inIdx` (D7), the
+  encode_op_pushdata, whatever RawSignatureHash raises (`Ctx.sigHash`; negative `inIdx`: D7), the
   `else: raise AssertionError` arms of `_UnaryOp` / `_BinOp`.
   Mathlib-free (compiled into btcmodel).
 -/
@@ -98,12 +98,41 @@ deriving DecidableEq, Repr
 
 def St.cap (st : St) : Captured := ⟨st.stack, st.alt, st.nOpCount⟩
 
-/-- the transaction context of `_CheckSig` -/
+/-- the transaction context of `_CheckSig` (txTo and inIdx are fixed for one call of EvalScript /
+    VerifyScript, so they appear only through what the interpreter computes from them) -/
 structure Ctx where
-  env : Env
-  inIdx : Int
-  nVin : Nat
-  nVout : Nat
+  hashes : Hashes
+  /-- `RawSignatureHash(script, txTo, inIdx, hashtype)[0]`: the digest, or the exception it raises
+      (CScriptInvalidError from its `FindAndDelete`, IndexError for a negative `inIdx` below
+      −|vin| — known finding D7 —, ValueError / struct.error for a transaction outside wire range) -/
+  sigHash : Bytes → Nat → Res Bytes
+  /-- `key.set_pubkey(pubkey); key.verify(digest, sig)`: signature body, public key, digest -/
+  sigVerify : Bytes → Bytes → Bytes → Bool
+
+/-- the reference's view of the context: signature check as a boolean function of
+    (signature body, public key, script code, hash type).  Core's `SignatureHash` cannot raise; where
+    the modelled `RawSignatureHash` raises, the reference is outside its domain (answer `false`) —
+    the simulation theorems assume `SigHashOK`, under which that branch is never taken. -/
+def Ctx.env (c : Ctx) : Env :=
+  { hashes := c.hashes
+    sigCheck := fun body pubkey scriptCode hashType =>
+      match c.sigHash scriptCode hashType with
+      | .ok digest => c.sigVerify body pubkey digest
+      | .error _ => false }
+
+/-- `RawSignatureHash` returns a digest for every script code of at most 10 000 bytes that tokenises
+    and every hash-type byte — the contexts in which `_CheckSig` raises nothing but CScriptInvalidError.
+    Used by C05's template theorems; the same statement as `SigHashOK` (Proofs/ScriptEquivSig.lean),
+    wrapped in a structure so that `(thm ..)` does not unfold it. -/
+structure Ctx.SigTotal (c : Ctx) : Prop where
+  total : ∀ script ht, script.length ≤ MAX_SCRIPT_SIZE → ht < 256 → (rawIter script).2 = none →
+    ∃ d, c.sigHash script ht = .ok d
+
+/-- class name of a propagating exception -/
+def excClass : Exc → String
+  | .py cls => cls
+  | .valueerr => "ValueError"
+  | e => e.family
 
 /-- `err_raiser(cls, …)` for the classes whose message does not look up `OPCODE_NAMES` -/
 def raise {α} (st : St) : M α := .error (.eval st.cap)
@@ -228,23 +257,19 @@ def isPushOnly (s : Bytes) : Bool :=
 /-! ### _CheckSig -/
 
 /-- `_CheckSig(sig, pubkey, script, txTo, inIdx, err_raiser)`.
-    `key.set_pubkey` ignores the result of `o2i_ECPublicKey`; `key.verify` returns False for
-    anything OpenSSL does not accept.  `RawSignatureHash` indexes `txtmp.vin[inIdx]` (and
-    `txtmp.vout[inIdx]` under SIGHASH_SINGLE) with Python semantics: these are the IndexErrors
-    of known finding D7; its `FindAndDelete` of OP_CODESEPARATOR iterates `script`. -/
+    `key.set_pubkey` ignores the result of `o2i_ECPublicKey`; an empty signature is False before
+    anything is hashed; `hashtype = sig[-1]`; whatever `RawSignatureHash` raises propagates
+    (CScriptInvalidError is later wrapped by EvalScript, anything else escapes: D7); its error
+    indication (the HASH_ONE cases) is ignored and the digest used. -/
 def checkSig (c : Ctx) (cap : Captured) (sig pubkey script : Bytes) : M Bool :=
   if sig.length = 0 then .ok false else
   match sig.getLast? with
   | none => .error (.py "IndexError")                            -- `sig[-1]`
   | some ht =>
-    let body := sig.dropLast
-    let hashtype := ht.toNat
-    if c.inIdx ≥ (c.nVin : Int) then .ok (c.env.sigCheck body pubkey script hashtype)   -- HASH_ONE
-    else if (rawIter script).2.isSome then .error (.invalid cap)
-    else if c.inIdx < -(c.nVin : Int) then .error (.py "IndexError")               -- txtmp.vin[inIdx]
-    else if hashtype % 32 = 3 ∧ ¬ (c.inIdx ≥ (c.nVout : Int)) ∧ c.inIdx < -(c.nVout : Int) then
-      .error (.py "IndexError")                                                     -- txtmp.vout[outIdx]
-    else .ok (c.env.sigCheck body pubkey script hashtype)
+    match c.sigHash script ht.toNat with
+    | .ok digest => .ok (c.sigVerify sig.dropLast pubkey digest)
+    | .error .invalidscript => .error (.invalid cap)
+    | .error e => .error (.py (excClass e))
 
 /-! ### _CheckMultiSig -/
 
